@@ -2626,7 +2626,7 @@ impl Formatter {
         <span class=\"mech-right-paren\">)</span>
       </span>", name, value)
     } else {
-      format!("{}{}", name, value)
+      format!(":{}({})", name, value)
     }
   }
 
